@@ -1,1 +1,5 @@
 import Aldy.Model.Enumerate
+import Aldy.Model.Ilp
+import Aldy.Model.Shape
+import Aldy.Model.Wire
+import Aldy.Props.C05
